@@ -43,7 +43,8 @@ RpMut == {<<"set_fixed_threshold", 1>>, <<"set_fixed_threshold", 2>>,
 ClimMut == {<<"set_threshold", 1>>, <<"set_threshold", 2>>, <<"set_link_density", 1>>,
             <<"set_link_density", 2>>, <<"set_non_local", 0>>, <<"set_non_local", 1>>}
 Alphabet(f) ==
-  IF f \in {"network", "dirnetwork"} THEN NetMut \cup SameMut
+  \* (randomly_rewire: token 3 = "the graph as rewired", whatever the random choice was)
+  IF f \in {"network", "dirnetwork"} THEN NetMut \cup SameMut \cup {<<"randomly_rewire", 3>>}
   ELSE IF f = "interacting" THEN NetMut
   ELSE IF f = "visibility" THEN {m \in NetMut : m[1] \in {"node_weights", "set_link_attribute", "del_link_attribute"}}
   ELSE IF f = "geonetwork" THEN NetMut \cup {<<"set_node_weight_type", 0>>, <<"set_node_weight_type", 1>>,
@@ -72,7 +73,7 @@ Alphabet(f) ==
 
 Apply(f, a, m) ==
   LET name == m[1]  v == m[2] IN
-  IF name \in {"adjacency", "set_edge_list", "adjacency~same"} THEN [a EXCEPT !.A = v, !.LA = 0]     \* a new graph has no attributes
+  IF name \in {"adjacency", "set_edge_list", "adjacency~same", "randomly_rewire"} THEN [a EXCEPT !.A = v, !.LA = 0]     \* a new graph has no attributes
   ELSE IF name \in {"node_weights", "node_weights~same", "node_weights~getset"} THEN [a EXCEPT !.W = v]
   ELSE IF name \in {"set_link_attribute", "set_link_attribute~same"} THEN [a EXCEPT !.LA = v]
   ELSE IF name = "del_link_attribute" THEN [a EXCEPT !.LA = 0]
